@@ -1,5 +1,6 @@
 SPECIFICATION Spec
 CONSTANTS
+  DeclaredFirst = TRUE
   RkIntHonoursStyle = TRUE
   FmtIds = {5, 14, 46, 50, 163, 164, 165, 400, 65535}
   XfOnlyIds = {0, 22, 47}
